@@ -339,4 +339,83 @@ theorem asm_disasm_succeeds_refuted :
   rw [this] at hq
   cases hq
 
+
+/-! ### the part of the round trip that does hold -/
+
+/-- which opcodes the assembler can read back from their printed name: exactly the assigned
+    (non-expansion) ones other than PUSHDATA1/2/4 and JUMP/JUMPIF -/
+theorem nameable_iff : ∀ n, n < 256 →
+    Nameable (UInt8.ofNat n) =
+      (!(Ops.isExpansion.getD n true) && n != Ops.OP_PUSHDATA1 && n != Ops.OP_PUSHDATA2 && n != Ops.OP_PUSHDATA4 &&
+        n != Ops.OP_JUMP && n != Ops.OP_JUMPIF) := by
+  decide +kernel
+
+/-- **asm_disasm_partial.** For a parsable program without JUMP/JUMPIF in which every
+    data-less instruction is an opcode the assembler knows by name (no expansion opcode, no
+    empty PUSHDATA1/2/4) and every push is shorter than 32767 bytes:
+    Disassemble succeeds with the text `joinSp (is.map textOf)`, Assemble of that text
+    succeeds, and the assembled program parses to the same instruction sequence modulo push
+    canonicalisation — instruction by instruction the same opcode for data-less instructions,
+    and for data-carrying ones the minimal push of the same data (`canonInst`). -/
+theorem asm_disasm_partial (p : Bytes) (is : List Inst) (hlen : p.length ≤ 300000000)
+    (hp : parseProgram p = .ok is)
+    (hnj : ∀ i ∈ is, isJump i.op = false)
+    (hname : ∀ i ∈ is, i.data.length = 0 → Nameable i.op = true)
+    (hlong : ∀ i ∈ is, i.data.length < 32767) :
+    disassemble p = .ok (joinSp (is.map textOf)) ∧
+    assemble (joinSp (is.map textOf)) = .ok ((is.map canonBytes).flatten) ∧
+    parseProgram ((is.map canonBytes).flatten) = .ok (is.map canonInst) := by
+  have hmax : p.length ≤ maxInt32 := by unfold maxInt32; omega
+  have hspec := hp
+  rw [parseProgram_eq p hmax] at hspec
+  have htile := specProg_tiles _ _ _ _ hspec
+  obtain ⟨hq1, hq2⟩ := htile.canon_length
+  refine ⟨?_, ?_, ?_⟩
+  · -- Disassemble
+    unfold disassemble
+    have h1 := disPass1_eq (p.length + 1) [] p [] is (by simpa using hmax) (by simpa using hspec)
+    simp only [List.nil_append, List.length_nil] at h1
+    rw [h1, collectLabels_nojump is [] hnj]
+    simp only [disPass2_nojump is 0 hnj]
+  · -- Assemble
+    unfold assemble
+    have hw : ∀ w ∈ is.map textOf, IsWord w ∧ w.length < maxScanTokenSize := by
+      intro w hw
+      obtain ⟨i, hi, rfl⟩ := List.mem_map.mp hw
+      exact textOf_word i (hlong i hi)
+    rw [scanAll_words (is.map textOf) _ hw (Nat.lt_succ_self _)]
+    simp only [asmTokens_text is ⟨[], [], []⟩ hname, List.nil_append]
+    rfl
+  · -- parse the assembled bytes
+    apply parseProgram_of_spec (fuel := is.length + 1) (by unfold maxInt32; omega) (by omega)
+    apply specProg_canon is _ 0 _ (Nat.lt_succ_self _) (by omega)
+    intro i hi
+    exact ⟨specProg_mem _ _ _ _ hspec i hi, hname i hi⟩
+
+/-- the hypotheses are satisfiable on a non-trivial program:
+    `DUP HASH160 <20 bytes> EQUALVERIFY TXSIGHASH SWAP CHECKSIG` with a non-minimal push, OP_5 -/
+example :
+    let p : Bytes := [0x76, 0xaa, 0x4c, 0x02, 0xab, 0xcd, 0x88, 0x55, 0xae, 0x7c, 0xac]
+    ∃ is, parseProgram p = .ok is ∧ (∀ i ∈ is, isJump i.op = false) ∧
+      (∀ i ∈ is, i.data.length = 0 → Nameable i.op = true) ∧ (∀ i ∈ is, i.data.length < 32767) ∧
+      is.map canonInst ≠ is := by
+  refine ⟨[⟨0x76, 1, []⟩, ⟨0xaa, 1, []⟩, ⟨0x4c, 4, [0xab, 0xcd]⟩, ⟨0x88, 1, []⟩, ⟨0x55, 1, [0x05]⟩,
+    ⟨0xae, 1, []⟩, ⟨0x7c, 1, []⟩, ⟨0xac, 1, []⟩], by decide, by decide, by decide, by decide, by decide⟩
+
+/-- corollary: on canonical jump-free programs (every data-carrying instruction already is the
+    minimal push of its data) the round trip is exact, as the property states -/
+theorem asm_disasm_exact_on_canonical (p : Bytes) (is : List Inst) (hlen : p.length ≤ 300000000)
+    (hp : parseProgram p = .ok is)
+    (hnj : ∀ i ∈ is, isJump i.op = false)
+    (hname : ∀ i ∈ is, i.data.length = 0 → Nameable i.op = true)
+    (hlong : ∀ i ∈ is, i.data.length < 32767)
+    (hcanon : ∀ i ∈ is, canonInst i = i) :
+    ∃ t q, disassemble p = .ok t ∧ assemble t = .ok q ∧ parseProgram q = parseProgram p := by
+  obtain ⟨h1, h2, h3⟩ := asm_disasm_partial p is hlen hp hnj hname hlong
+  refine ⟨_, _, h1, h2, ?_⟩
+  rw [h3, hp]
+  congr 1
+  have : is.map canonInst = is.map id := List.map_congr_left (fun i hi => by simpa using hcanon i hi)
+  rw [this, List.map_id]
+
 end BytomModel.Props.C09
